@@ -854,6 +854,31 @@ Varable failures: {var_failed}
         outf.updatemeta()
         return outf
 
+    def renameVariables(self, inplace=False, copyall=True, **newkeys):
+        """
+        Wrapper PseudoNetCDFFile.renameVariables that replaces the old
+        names in VAR-LIST and updates NVARS, VAR, and TFLAG
+
+        Parameters
+        ----------
+        see PseudoNetCDFFile.renameVariables
+        """
+        varlist = self.getVarlist(update=False)
+        outf = PseudoNetCDFFile.renameVariables(
+            self, inplace=inplace, copyall=copyall, **newkeys
+        )
+        newvarlist = [newkeys.get(vk, vk) for vk in varlist]
+        newvarlist += [
+            vk for vk in newkeys.values() if vk not in newvarlist
+        ]
+        setattr(outf, 'VAR-LIST', '')
+        outf._add2Varlist([
+            vk for vk in newvarlist
+            if vk in outf.variables and len(vk) <= 16
+        ])
+        outf.updatemeta()
+        return outf
+
     def eval(self, *args, **kwds):
         """
         Wrapper PseudoNetCDFFile.eval that corrects VAR-LIST
